@@ -226,6 +226,15 @@ def step (w : World) (toks : List String) : World × String :=
   | "b" :: args => let (e, o) := epStep w.now w.b args; ({ w with b := e }, o)
   | _ => (w, "bad-op")
 
-def main : IO Unit := runLoop step ({} : World)
+/-- `f:<op> …` (send-fault sessions, from the first `failsend` on): the implementation side executes
+the op under its oracles, the model does not know send faults — both sides print `skip`.  Every
+later line of such a session carries the prefix, so the model's world is simply left behind until
+the next `new`. -/
+def stepTop (w : World) (toks : List String) : World × String :=
+  match toks with
+  | t :: _ => if t.startsWith "f:" then (w, "skip") else step w toks
+  | [] => step w toks
+
+def main : IO Unit := runLoop stepTop ({} : World)
 
 end Tw.Drv.Conn6
